@@ -337,6 +337,8 @@ class SPolynomial(BasePolynomial):
             return
         # for each cos power: highest r power with non-zero coefficient
         M = [a.nonzero()[0].max(initial=-1) for a in c.T]
+        # remove zero high-order rows (S and P below are sized by max(M))
+        c = c[:max(M) + 1]
 
         if s != 1.0:
             # apply stretch
